@@ -49,6 +49,16 @@ CHECKS = {
         design_ref="DESIGN.md 7/C07",
         note="E1-E7; K=30 rounds; two classes of genuine defects are listed in known_findings.jsonl",
         technique="crash-point enumeration on real code over fakes; end states validated by TLC; TLA+ model with ManagerCrash"),
+    "C08": dict(
+        category="model_checking",
+        text="Lost.tla is the decision table of the statement (exemptions, master safety, postponement window); TLC checks a "
+             "transcription of stateLost against it on the complete product (24,864 cells). The real stateLost runs on the "
+             "fakes for every role x cluster size 1-4 x per-replica condition x semi-sync x wait count x switch x outcome of "
+             "the read-only attempt, three lost ticks around the inactivation delay; TLC judges the statements that reached "
+             "the local and remote fake servers and the read_only flag against the table (LostRows.tla).",
+        design_ref="DESIGN.md 7/C08",
+        note="E1/E2; effects-based judgement; no boundary instants; complete for n<=3 in quick, n=4 sampled",
+        technique="TLA+ decision table (TLC exhaustive) + TLC validation of real handler activations on fakes"),
     "C12": dict(
         category="model_checking",
         text="Closed form proved for all n,w with TLAPS on Quorum.tla; TLC checks the clauses exhaustively for "
